@@ -9,9 +9,15 @@
 (*                 call has returned (asynchronous calls: when their         *)
 (*                 callback has run; completions of the transport are        *)
 (*                 inline).  plen = -1: the caller never called SetPayload.  *)
-(*                 err = nil | toobig | cancelled | other | panic | nocb     *)
+(*                 err = nil | toobig | cancelled | other | panic | nocb |   *)
+(*                 parked                                                    *)
 (*                 (nocb: the callback of an asynchronous call did not run - *)
-(*                 not judged here, the frame is still expected; C17)        *)
+(*                 not judged here, the frame is still expected; C17.        *)
+(*                 parked: deferred transport - the call was accepted and    *)
+(*                 its transport write has not completed yet; logged when    *)
+(*                 the call returns, so submission order = event order)      *)
+(*   Acc(n)        deferred transport: the transport accepted a part (n = 1) *)
+(*                 or the rest (n = 0) of the write in flight - not judged   *)
 (*   Ping(id, plen, err)  a ping the peer sent was read with NextFrame: the  *)
 (*                 stream owes a Pong with the same payload                  *)
 (*   Wire(hdr, fin, rsv, op, m, dl, minimal, pid)                            *)
@@ -59,7 +65,7 @@ ObsCall(e) ==
   LET n == IF e.plen < 0 THEN 0 ELSE e.plen IN
   IF e.err = "panic" THEN Fail("C16/panic/" \o e.api \o ":" \o e.src)
   ELSE IF MessageApi(e.api) /\ e.err = "toobig" /\ n <= wmax THEN Fail("C16/refused-within-max")
-  ELSE IF e.err \notin {"nil", "nocb"} THEN
+  ELSE IF e.err \notin {"nil", "nocb", "parked"} THEN
        /\ refused' = refused \cup {e.id}
        /\ UNCHANGED <<wmax, expq, bad>>
   ELSE IF MessageApi(e.api) /\ n > wmax THEN Fail("C16/oversize-written")
@@ -103,6 +109,7 @@ Obs(e) ==
     [] e.ev = "Ping" -> ObsPing(e)
     [] e.ev = "Wire" -> ObsWire(e)
     [] e.ev = "End"  -> ObsEnd(e)
+    [] e.ev = "Acc"  -> UNCHANGED monvars
     [] OTHER         -> Fail("C16/harness/unknown-event")
 
 NotBad == bad = ""
